@@ -13,7 +13,7 @@ from pathlib import Path
 
 from gverif.common import die
 
-NAMESEQ = ["a", "b", "c"]
+NAMESEQ = ["a", "b", "c", "d"]
 ABBR = {
     "positional-only": "po",
     "positional or keyword": "pk",
